@@ -131,6 +131,19 @@ func c24(c *engine.Ctx) {
 	if p == nil {
 		return
 	}
+	// ---- mini-merkle array: closed writer set + canonical rebuild before persisting (seed C24b)
+	if tf := p.Field("tm2/pkg/bptree.MiniMerkle.tree"); tf == nil {
+		c.Undecided("anchor", "tm2/pkg/bptree.MiniMerkle.tree", "field not found")
+	} else {
+		tgTableWriters(c, p, "minitree-writers", "tm2/pkg/bptree.MiniMerkle.tree", p.FieldWrites(tf), nil, []string{
+			"tm2/pkg/bptree.(*MiniMerkle).SetSlot", "tm2/pkg/bptree.(*MiniMerkle).Build", "tm2/pkg/bptree.(*MiniMerkle).Clear",
+			"tm2/pkg/bptree.(*InnerNode).RebuildMiniMerkle", "tm2/pkg/bptree.(*LeafNode).RebuildMiniMerkle"})
+	}
+	if sn := c.MustFunc("tm2/pkg/bptree.(*MutableTree).saveNode"); sn != nil {
+		for _, callee := range []string{"tm2/pkg/bptree.(*InnerNode).RebuildMiniMerkle", "tm2/pkg/bptree.(*LeafNode).RebuildMiniMerkle"} {
+			c.Check("saved-hash-canonical", sn.Name+" -> "+callee, sn.Pos(), len(sn.CallsTo(callee)) > 0, "a node is persisted with the hash of a full rebuild over all B slots (unused slots = sentinel), so that a reloaded, reopened or imported node — whose reader rebuilds from content — hashes the same")
+		}
+	}
 	const P = "tm2/pkg/bptree."
 	inner, leaf := p.Named(P+"InnerNode"), p.Named(P+"LeafNode")
 	if inner == nil || leaf == nil {
